@@ -30,6 +30,9 @@ type c15Case struct {
 	// After, when set, puts another complete message with a size violation of its own BEFORE this one in the same
 	// text: every violated declaration is reported, not only the first
 	After bool `json:"after,omitempty"`
+	// Pieces > 0: an ASCII literal is written as one quoted run per character plus that many EMPTY runs ("") spread over
+	// the literal - more tokens than characters; the declaration counts characters
+	Pieces int `json:"pieces,omitempty"`
 }
 
 // badElement is a well-formed number that the item type cannot represent: it is written, so it is counted.
@@ -145,6 +148,18 @@ func checkC15(c c15Case) (ci caseInfo, err error) {
 		return checkC15Variable(c, lo, hi, decl, ci)
 	}
 	body := literalBody(c.Kind, c.Count)
+	if c.Kind == model.A && c.Pieces > 0 && !c.AsVar {
+		var runs []string
+		for i := 0; i < c.Count; i++ {
+			runs = append(runs, "\"a\"")
+		}
+		for k := 0; k < c.Pieces; k++ {
+			at := (k * 7) % (len(runs) + 1)
+			runs = append(runs[:at], append([]string{"\"\""}, runs[at:]...)...)
+		}
+		body = " " + strings.Join(runs, " ")
+		ci.label("ascii-with-empty-runs")
+	}
 	bad := c.BadAt > 0 && c.BadAt <= c.Count && badElement(c.Kind) != ""
 	if bad {
 		var elems []string
@@ -403,6 +418,11 @@ func TestC15Enum(t *testing.T) {
 					}
 					for count := 0; count <= 5; count++ {
 						run(c15Case{Kind: kind, Form: form, Lo: fmt.Sprint(lo), Hi: fmt.Sprint(hi), Count: count, InList: (lo+hi+count)%2 == 1})
+						if kind == model.A {
+							for pieces := 1; pieces <= 3; pieces++ {
+								run(c15Case{Kind: kind, Form: form, Lo: fmt.Sprint(lo), Hi: fmt.Sprint(hi), Count: count, InList: (lo+hi+count)%2 == 1, Pieces: pieces})
+							}
+						}
 						if count > 0 && badElement(kind) != "" {
 							// the same with one element the type cannot hold (first, last in turn)
 							run(c15Case{Kind: kind, Form: form, Lo: fmt.Sprint(lo), Hi: fmt.Sprint(hi), Count: count, InList: (lo+hi+count)%2 == 0, BadAt: 1 + (lo+hi)%count})
@@ -489,7 +509,10 @@ func TestC15(t *testing.T) {
 		if rapid.IntRange(0, 4).Draw(t, "sameLine") == 4 {
 			c.SameLine = rapid.SampledFrom([]string{"name", "Größe", "a✉b", "名前", "x", "😀", "ıſ", "n\u00e9"}).Draw(t, "sameLineName")
 		}
-		if c.Count > 0 && rapid.IntRange(0, 5).Draw(t, "badElem") == 5 {
+		if c.Kind == model.A && !c.AsVar && rapid.IntRange(0, 2).Draw(t, "emptyRuns") == 2 {
+			c.Pieces = rapid.IntRange(1, 6).Draw(t, "pieces")
+		}
+		if c.Count > 0 && c.Pieces == 0 && rapid.IntRange(0, 5).Draw(t, "badElem") == 5 {
 			c.BadAt = rapid.IntRange(1, c.Count).Draw(t, "badAt")
 		}
 		return c
